@@ -341,6 +341,9 @@ def gen_error_ctx(read):
     fmt_rs = drop_test_mods(blank(read("clap_builder/src/error/format.rs")))
     ffns = functions(fmt_rs)
     fsites = [(f, k, n) for (f, k, n) in sites_of(fmt_rs, ffns) if k in ("unwrap", "expect", "unreachable!", "panic!", "index")]
+    for rel in ("mod.rs", "kind.rs", "context.rs"):
+        code = drop_test_mods(blank(read("clap_builder/src/error/" + rel)))
+        fsites += [(f, k, n) for (f, k, n) in sites_of(code, functions(code))]
 
     def sl(l):
         return "[" + "; ".join('"%s"' % x for x in l) + "]"
@@ -362,7 +365,8 @@ def gen_error_ctx(read):
         "Definition gen_ctor_ctx : list (string * string * bool * list string * list string) := [",
         ";\n".join('  ("%s", "%s", %s, %s, %s)' % (n, k, "true" if fm else "false", sl(a), sl(b)) for n, k, fm, a, b in ctors),
         "].",
-        "(** unwrap()/expect(/unreachable!/panic!/index sites of error/format.rs: (fn, kind, ordinal) *)",
+        "(** unwrap()/expect(/unreachable!/panic!/index sites of error/format.rs, then every counted shape of error/mod.rs,",
+        "    kind.rs, context.rs: (fn, kind, ordinal) *)",
         "Definition gen_format_sites : list (string * string * N) := [",
         ";\n".join('  ("%s", "%s", %d)' % r for r in fsites),
         "].",
